@@ -1,0 +1,26 @@
+//go:build verif
+
+// Verification hooks of the work package "c03c02" (properties C03 and C02).  Compiled only with -tags verif; nothing
+// here changes behaviour of the production build.
+//
+//   - VerifC03WrapIPAM: lets the harness put a decorator around the plugin's IPAM, so that the forced two-goroutine
+//     schedule of the deployment scale-down decision can hold a goroutine right after its ByPrefix count.
+//   - VerifC03SetCRD: lets the harness install a CRD lookup and a custom-resource replica cache, so that the release
+//     decision for pods of a scalable custom resource (immutable policy) can be exercised without running informers.
+package schedulerplugin
+
+import (
+	"tkestack.io/galaxy/pkg/ipam/crd"
+	"tkestack.io/galaxy/pkg/ipam/floatingip"
+)
+
+// VerifC03WrapIPAM replaces the plugin's IPAM by wrap(current IPAM).  Call before the plugin is used concurrently.
+func (p *FloatingIPPlugin) VerifC03WrapIPAM(wrap func(floatingip.IPAM) floatingip.IPAM) {
+	p.ipam = wrap(p.ipam)
+}
+
+// VerifC03SetCRD replaces the CRD key lookup and the custom-resource cache.
+func (p *FloatingIPPlugin) VerifC03SetCRD(key CrdKey, cache crd.CrdCache) {
+	p.crdKey = key
+	p.crdCache = cache
+}
